@@ -675,7 +675,7 @@ Proof.
     + rewrite <- Ed in *. destruct (l_et (st w)); [|inversion E; subst; exact H2].
       destruct (_ <? _).
       * eapply (mb_elwrite _ M); eauto.
-      * eapply I_trigger; [|exact H2|exact E]. reflexivity.
+      * eapply I_trigger; [| |exact E]; [reflexivity|]. apply I_emit; [oign|exact H2].
   - destruct (is_eagain e); [inversion E; subst; exact H1|]. eapply (mb_close _ M); eauto.
   - inversion E; subst; exact H1.
 Qed.
